@@ -72,7 +72,10 @@ def gen_where(rnd):
         return ["cmp", rnd.choice(["gt", "le", "ne"]), col("w"), num(rnd.choice([1, 2, 3]))]
     if k < 0.85:
         return ["cmp", rnd.choice(["eq", "ne"]), col("g1"), ["str", rnd.choice(["x", "y"])]]
-    return ["and", ["cmp", "ge", col("w"), num(2)], ["is", rnd.choice(["true", "false"]), col("g2")]]
+    if k < 0.93:
+        return ["and", ["cmp", "ge", col("w"), num(2)], ["is", rnd.choice(["true", "false"]), col("g2")]]
+    # a whole-table aggregate inside WHERE: computed over ALL source rows (the filter has not run yet), once
+    return ["cmp", rnd.choice(["gt", "le", "lt", "ge"]), col("w"), ["aggr", rnd.choice(["avg", "min", "max"]), [col("w")]]]
 
 
 def gen_having(rnd):
